@@ -362,6 +362,7 @@ def run(ctx):
     streams.hist_corr(ctx, ents=B.ENTRIES)
     streams.fn_corr(ctx, ents=B.ENTRIES)
     streams.presentation_variants(ctx, fn_ents=B.ENTRIES, hist_ents=B.ENTRIES)
+    streams.wide_corr(ctx, B.ENTRIES, values=(129, 130), ncases=ctx.n(2, 12), sizes=(2, 3))
     modes_stream(ctx)
     exhaustive_stream(ctx)
     floor_stream(ctx)
